@@ -15,7 +15,9 @@ EXPLANATION = (
     "argument whose length the SQL search binds as a count reaches it as a set; removal counts are the length of the very list "
     "that was removed / 1 after a guarded delete; a missing key raises KeyError on both back-ends; the generic filter matches "
     "literally (startswith on the raw name, flag-less regex applied with match()); no ordering comparison on the name column; "
-    "what is stored is the URI text printed verbatim from its fields (shared with C19). Not decided: sqlite's own semantics, reopen equality, histories, injected "
+    "what is stored is the URI text printed verbatim from its fields (shared with C19)."
+    'Also decided: SqlStorage.__setitem__ writes the given uri on every path; the nsc tool asks yplookup the question its command names. '
+    "Not decided: sqlite's own semantics, reopen equality, histories, injected "
     "statement failures."
 )
 
@@ -91,6 +93,7 @@ def run(ctx, R, tier):
     R.rule("C14-R7", "a missing key raises KeyError on both back-ends", floor=1)
     R.rule("C14-R6", "removal counts: len() of the very list handed to remove_items; 1 only after the guarded delete", floor=3)
     R.rule("C14-R10", "SqlStorage.__setitem__ writes the key and the uri it was given on every path (an overwrite does not keep the old uri)", floor=1)
+    R.rule("C14-R11", "the command line client asks the question its command names: yplookup_all -> meta_all, yplookup_any -> meta_any", floor=2)
 
     # ---------------------------------------------------------------- R1 + collect DML
     dml_by_method = {}
@@ -365,6 +368,14 @@ def run(ctx, R, tier):
     # ---------------------------------------------------------------- R10
     from .common import sql_setitem_writes_uri
     sql_setitem_writes_uri(ctx, R, "C14-R10")
+
+    # ---------------------------------------------------------------- R11
+    for cmd, kw in (("cmd_yplookup_all", "meta_all"), ("cmd_yplookup_any", "meta_any")):
+        g = ctx.fn("Pyro5.nsc.handle_command.%s" % cmd)
+        yc = [c for c in walk_no_nested(g.node) if isinstance(c, ast.Call) and isinstance(c.func, ast.Attribute) and c.func.attr == "yplookup"]
+        kws = {k.arg for c in yc for k in c.keywords}
+        R.check(len(yc) == 1 and kw in kws and not ({"meta_all", "meta_any"} - {kw}) & kws, "C14-R11", "nsc.%s|keyword" % cmd, "calls yplookup(%s=<tags>)" % kw, g.loc(),
+                "`nsc %s` calls yplookup with %s: it answers the other question (all tags / any tag) on both back-ends alike" % (cmd[4:], sorted(kws & {"meta_all", "meta_any"})))
 
 
 def _inside(node, container):
